@@ -21,6 +21,7 @@ import PrqlModel.Drv.Expr
 import PrqlModel.Drv.Rq
 import PrqlModel.Drv.Scope
 import PrqlModel.Drv.Anchor
+import PrqlModel.Drv.InferSorts
 namespace Drv
 
 def handlers : List (List String → Option String) := [
@@ -40,7 +41,8 @@ def handlers : List (List String → Option String) := [
   Drv.Expr.handle,
   Drv.Rq.handle,
   Drv.Scope.handle,
-  Drv.Anchor.handle
+  Drv.Anchor.handle,
+  Drv.InferSorts.handle
 ]
 
 def handle (fields : List String) : String :=
